@@ -46,7 +46,7 @@ def one(pid, n, src):
             meta["own_test_passes"] = code == 0
             for t in tests:
                 os.remove(os.path.join(dst, os.path.basename(t)))
-        r = subprocess.run([os.path.join(HERE, "bin", "apcheck"), "-verif", HERE, "-target", dst, "-property", "all", "-no-evidence"], env=ENV, capture_output=True, text=True)
+        r = subprocess.run([os.environ.get("APBIN") or os.path.join(HERE, "bin", "apcheck"), "-verif", HERE, "-target", dst, "-property", "all", "-no-evidence"], env=ENV, capture_output=True, text=True)
         fails = [l[:260] for l in (r.stdout + r.stderr).splitlines() if l.startswith("FAIL ") or l.startswith("CHECKER")]
         meta["apcheck_exit"] = r.returncode
         meta["alarms"] = fails
@@ -56,7 +56,8 @@ def one(pid, n, src):
 
 def main():
     pid, base = sys.argv[1], os.path.abspath(sys.argv[2])
-    subprocess.run([os.path.join(HERE, "build.sh")], check=True)
+    if not os.environ.get("APBIN"):  # APBIN=<dev binary>: leave bin/apcheck alone (a background self-test may be using it)
+        subprocess.run([os.path.join(HERE, "build.sh")], check=True)
     out = []
     for d in sorted(glob.glob(os.path.join(base, "NEUTRAL", "*"))):
         if not os.path.exists(os.path.join(d, "patch.diff")):
